@@ -57,9 +57,10 @@ func c12Initial(world, clock int) *hstate {
 	}
 	prof := &refcfg.ProfileCfg{Path: "prof.yaml", Name: "p", Exts: []refcfg.Ext{{Kind: refcfg.KEKU, EKU: refcfg.Strs("clientAuth")}, {Kind: refcfg.KSKI, SKI: refcfg.S("hash")}, {Kind: refcfg.KAKI, AKIHash: true}}}
 	switch world {
-	case 0: // chain of 3 with a profile on the leaf
+	case 0: // chain of 3 with a profile on the leaf; the leaf takes a relative validity from the profile
 		d.Certs = []*refcfg.CertCfg{mk("root", ""), mk("mid", "root"), mk("leaf", "mid")}
 		d.Certs[2].Profile = "p"
+		prof.Validity = &refcfg.Validity{Duration: "4y"}
 	case 1: // root with two subs
 		d.Certs = []*refcfg.CertCfg{mk("root", ""), mk("suba", "root"), mk("subb", "root")}
 		d.Certs[1].Profile = "p"
@@ -316,9 +317,14 @@ func c12AllOps(s *hstate, allowAdd bool) []c12Op {
 		}})
 		ops = append(ops, c12Op{Name: "profile-edit-validity", Apply: func(st *hstate) {
 			p := st.D.Profiles[idx]
-			if p.Validity == nil {
+			switch {
+			case p.Validity == nil:
+				p.Validity = &refcfg.Validity{Duration: "4y"}
+			case p.Validity.From == "" && p.Validity.Duration == "4y":
+				p.Validity = &refcfg.Validity{Duration: "6y"}
+			case p.Validity.From == "":
 				p.Validity = &refcfg.Validity{From: "2021-01-01", Duration: "4y"}
-			} else {
+			default:
 				p.Validity = nil
 			}
 			st.W.Put(p.Path, RenderCfg(p.Path, p.Tree()))
@@ -567,6 +573,21 @@ func c12Oracle(x *engine.Ctx, s *hstate, before *hstate, res drive.Result, runSt
 				v("does-not-reflect-config/validity/until-without-from", fmt.Sprintf("entity %s: notAfter %s, configured until %s", alias, e.a.Cert.NotAfter.Text, ev.Until))
 			}
 		}
+		// a relative duration must hold between the two dates of the certificate, whenever it was produced
+		if in.SkipValidity && ev != nil && ev.From == "" && ev.Until == "" && ev.Duration != "" {
+			win := refcfg.RefWindow(ev, time.Local)
+			if win.Err == nil {
+				ok := false
+				for _, u := range refcfg.AddCalendar(e.a.Cert.NotBefore.T.Unix(), win.AddY, win.AddM, win.AddD, time.Local) {
+					if u == e.a.Cert.NotAfter.T.Unix() {
+						ok = true
+					}
+				}
+				if !ok {
+					v("does-not-reflect-config/validity/relative-duration", fmt.Sprintf("entity %s: %s .. %s is not the configured duration %s", alias, e.a.Cert.NotBefore.Text, e.a.Cert.NotAfter.Text, ev.Duration))
+				}
+			}
+		}
 		// (ii) differential against a clean run of the same configuration files
 		if gopkiChain(alias, 0) {
 			if clean == nil {
@@ -785,7 +806,7 @@ func init() {
 	register(&engine.Check{
 		ID:          "C12",
 		Level:       "model_checking",
-		Rule:        "breadth-first search over operation histories from 2 (quick) / 3 (thorough) initial worlds (chain of 3 with a profile on the leaf; root with two subs, one under an explicit alias in a sub-directory and one in a dotted sub-directory; 5 entities) x 2 clock modes. Operations per entity: edit subject / extensions / validity (3 shapes incl. until-without-from), switch issuer to another valid issuer, attach/detach profile, touch config, delete artifact, truncate after the hash line, strip key block, cut inside the certificate block, replace by a foreign certificate+key without hash line, remove entity (leaves), add entity; per profile: edit extension content, edit validity; runs: default, -a, -o only, -e only, -m only, -c only. All histories up to depth 3 (quick) / 4 (thorough; and depth 5 over the configuration-edit and run operations only, on the 3-chain), deduplicated per shard on the canonical state key (normalised config ASTs, artifacts abstracted to hash line + certificate shape with keys as indices and serial/signature dropped, mtimes as rank order); shards = first operation. Oracle after every successful default-flag run: every entity complete; every hash-carrying certificate equals the reference translation of its current effective configuration AND the shape of the certificate a clean run of gopki produces for the same files, and verifies under its issuer's current certificate; complete hash-less artifacts untouched unless issuer regenerated/newer; one more default run is a no-op. states = union of canonical states over shards, transitions = operations executed on the real code (every explored transition is an implementation trace)",
+		Rule:        "breadth-first search over operation histories from 2 (quick) / 3 (thorough) initial worlds (chain of 3 with a profile on the leaf; root with two subs, one under an explicit alias in a sub-directory and one in a dotted sub-directory; 5 entities) x 2 clock modes. Operations per entity: edit subject / extensions / validity (3 shapes incl. until-without-from), switch issuer to another valid issuer, attach/detach profile, touch config, delete artifact, truncate after the hash line, strip key block, cut inside the certificate block, replace by a foreign certificate+key without hash line, remove entity (leaves), add entity; per profile: edit extension content, edit validity (none -> 4y -> 6y -> from+4y -> none); runs: default, -a, -o only, -e only, -m only, -c only. All histories up to depth 3 (quick) / 4 (thorough; and depth 5 over the configuration-edit and run operations only, on the 3-chain), deduplicated per shard on the canonical state key (normalised config ASTs, artifacts abstracted to hash line + certificate shape with keys as indices and serial/signature dropped, mtimes as rank order); shards = first operation. Oracle after every successful default-flag run: every entity complete; every hash-carrying certificate equals the reference translation of its current effective configuration AND the shape of the certificate a clean run of gopki produces for the same files, and verifies under its issuer's current certificate; complete hash-less artifacts untouched unless issuer regenerated/newer; one more default run is a no-op. states = union of canonical states over shards, transitions = operations executed on the real code (every explored transition is an implementation trace)",
 		Bound:       map[string]string{"depth": "quick 3, thorough 4 (5-entity world 3; config-edit+run alphabet 5)", "entities": "3 (5 in thorough)"},
 		Assumptions: []string{"nothing is demanded after a run that fails (dangling issuer etc.: C18)", "key type of re-used keys versus a clean run is not compared", "crashes are counted and left to C20"},
 		Budget:      budgets(quickBudget, 50*time.Minute),
